@@ -136,7 +136,7 @@ private:
   std::vector<void*> callback_keys;
   // Incremented by destroy_sandbox, so that callback owners which outlive the
   // incarnation of the sandbox they registered with can be told apart
-  uint32_t sandbox_incarnation = 0;
+  uint64_t sandbox_incarnation = 0;
 
   void* transition_state = nullptr;
 
@@ -307,7 +307,7 @@ private:
    * calling this function henceforth.
    */
   template<typename T_Ret, typename... T_Args>
-  inline void unregister_callback(void* key, uint32_t incarnation)
+  inline void unregister_callback(void* key, uint64_t incarnation)
   {
     // Silently swallowing the failure is better here as RAII types may try to
     // cleanup callbacks after sandbox destruction
